@@ -292,7 +292,17 @@ func runC23(c *Ctx) {
 		}{{"wtmax", wtmax}, {"wtpref", wtpref}} {
 			key := fmt.Sprintf("bound#%d slot=FSINFO.%s", i+1, sl.name)
 			if bd.fromTS {
-				c.verdictIf(slotFromTS(sl.t), P, "wt", key, p.instrPos(sl.t.Instr), "advertisement follows TransferSize",
+				if slotFromTS(sl.t) {
+					if okMono, at := nonIncreasing(sl.t.Val, 0); !okMono {
+						pos := p.instrPos(sl.t.Instr)
+						if in, isIn := at.(ssa.Instruction); isIn {
+							pos = p.instrPos(in)
+						}
+						c.bad(P, "wt", key, pos, fmt.Sprintf("FSINFO %s is computed from TransferSize by an operation that can enlarge it (rounding up, adding, scaling), while WRITE refuses count > TransferSize (at %s): for some configured sizes the advertised maximum is refused", sl.name, p.instrPos(bd.at)))
+						continue
+					}
+				}
+				c.verdictIf(slotFromTS(sl.t), P, "wt", key, p.instrPos(sl.t.Instr), "advertisement follows TransferSize and is never enlarged",
 					fmt.Sprintf("WRITE refuses count > TransferSize (at %s) but FSINFO advertises %s as a value that does not depend on TransferSize: with the default 64 KiB transfer size a client that trusts the advertised maximum gets NFS3ERR_INVAL", p.instrPos(bd.at), sl.name))
 			} else if bd.k != nil {
 				okv := sl.t.Const != nil && *sl.t.Const <= *bd.k
@@ -356,6 +366,9 @@ func runC25(c *Ctx) {
 		}
 		return false
 	}
+	runC25Edges(c, ent, mfs, func(v ssa.Value) bool {
+		return hasOrigin(fl.Origins(v), func(o Origin) bool { return o.Kind == "field" && o.Fld == mfs })
+	})
 	for _, spec := range []struct {
 		proc    uint32
 		methods map[string]bool
